@@ -63,8 +63,9 @@ type Script struct {
 var schema = base.MustNewLogSchema([]string{"msg"})
 
 type recOrc struct {
-	gen int
-	tr  *vtrace.Tracer
+	gen  int
+	tr   *vtrace.Tracer
+	gate func(string) // the scenario's gate function: a downstream call may be slow (a busy pipeline), scripts hold it at "d.accept" / "d.close"
 }
 type recSink struct {
 	o   *recOrc
@@ -77,6 +78,7 @@ func (o *recOrc) NewSink(_ string, n base.ClientNumber) base.BufferReceiverSink 
 }
 func (o *recOrc) Shutdown() { o.tr.Emit("DShutdown", "gen", o.gen) }
 func (s *recSink) Accept(buffer []*base.LogRecord) {
+	s.o.gate("d.accept")
 	st := []string{}
 	for _, r := range buffer {
 		st = append(st, r.Fields[0])
@@ -84,7 +86,10 @@ func (s *recSink) Accept(buffer []*base.LogRecord) {
 	s.o.tr.Emit("DAccept", "gen", s.o.gen, "num", s.num, "msgs", st)
 }
 func (s *recSink) Tick()  { s.o.tr.Emit("DTick", "gen", s.o.gen, "num", s.num) }
-func (s *recSink) Close() { s.o.tr.Emit("DClose", "gen", s.o.gen, "num", s.num) }
+func (s *recSink) Close() {
+	s.o.gate("d.close") // the final flush of a closing sink may have to wait for its pipelines
+	s.o.tr.Emit("DClose", "gen", s.o.gen, "num", s.num)
+}
 
 // parsing receiver for the TCP scenarios: every line becomes one record handed to the orchestrator sink at once
 type lineReceiver struct{ orc base.Orchestrator }
@@ -142,7 +147,8 @@ func RunScript(sc Script) *vtrace.Tracer {
 	}
 	gateCount := map[string]int{}
 	jr := rand.New(rand.NewSource(sc.Seed))
-	vhook.Gate = func(point string) {
+	var gateFn func(point string)
+	gateFn = func(point string) {
 		mu.Lock()
 		gateCount[point]++
 		n := gateCount[point]
@@ -174,12 +180,13 @@ func RunScript(sc Script) *vtrace.Tracer {
 			time.Sleep(time.Duration(j) * time.Microsecond)
 		}
 	}
+	vhook.Gate = gateFn
 	defer func() { vhook.Gate = nil }()
 
 	gen := 1
 	var nextKind string
 	var orc *run.ReloadableOrchestrator
-	orc = run.NewReloadableOrchestrator(&recOrc{1, tr}, func() (run.CompleteReloadingFunc, error) {
+	orc = run.NewReloadableOrchestrator(&recOrc{1, tr, gateFn}, func() (run.CompleteReloadingFunc, error) {
 		if nextKind == "invalid" {
 			tr.Emit("Initiate", "ok", false)
 			return nil, errors.New("invalid configuration")
@@ -188,7 +195,7 @@ func RunScript(sc Script) *vtrace.Tracer {
 		return func() base.Orchestrator {
 			gen++
 			tr.Emit("DStart", "gen", gen)
-			return &recOrc{gen, tr}
+			return &recOrc{gen, tr, gateFn}
 		}, nil
 	})
 
